@@ -9,11 +9,27 @@ def models(ctx):
     ctx.model_expect_violation('GoAwayHandshake', 'GoAwayHandshake_bad1.cfg', 'GoAwayTruth', workers=2)
     ctx.model_expect_violation('GoAwayHandshake', 'GoAwayHandshake_bad2.cfg', 'GoAwayTruth', workers=2)
     ctx.model_check('H2Teardown', 'H2Teardown.cfg', workers=8)
-    ctx.model_expect_violation('H2Teardown', 'H2Teardown_asfound.cfg', 'C17_Exit', workers=8)
+    ctx.model_expect_violation('H2Teardown', 'H2Teardown_asfound.cfg', 'violated', workers=8)
+
+
+def inductive(ctx):
+    """Apalache: IndInv of spec/GoAwayInd.tla is inductive and implies GoAwayTruth, for any set of ids within 1..6
+    and unbounded integers (thorough tier; TLC's exhaustive run covers three ids)."""
+    import subprocess, tempfile, shutil, os
+    out = tempfile.mkdtemp(prefix='apa-', dir=ctx.scratch)
+    for init, inv, length in (('Init', 'IndInv', 0), ('IndInit', 'IndInv', 1), ('IndInit', 'GoAwayTruth', 0)):
+        p = subprocess.run(['timeout', '600', 'apalache-mc', 'check', '--out-dir=' + out, '--cinit=ConstInit', '--init=' + init, '--inv=' + inv,
+                            '--length=%d' % length, os.path.join(ctx.specdir, 'GoAwayInd.tla')], cwd=out, stdout=subprocess.PIPE, stderr=subprocess.STDOUT, text=True)
+        if 'EXITCODE: OK' not in p.stdout:
+            raise __import__('vlib').Inconclusive('apalache %s => %s (length %d) did not succeed:\n%s' % (init, inv, length, p.stdout[-1500:]))
+        ctx.models.append({'module': 'GoAwayInd', 'cfg': 'apalache --init=%s --inv=%s --length=%d' % (init, inv, length), 'result': 'no error'})
+    shutil.rmtree(out, ignore_errors=True)
 
 
 def run(ctx):
     models(ctx)
+    if ctx.tier == 'thorough':
+        inductive(ctx)
     srvprop.run(ctx, 'C10')
 
 
